@@ -207,6 +207,40 @@ func runR06_6(c *Ctx, r *R) {
 	if n == 0 {
 		r.Unk("mpx/teardown-codes", 0, "anchor lost: no teardown status classification found")
 	}
+	// the other half: the statuses the package itself returns on teardown (package-level values built once) must
+	// carry one of the three codes those classifications accept
+	if ini := c.Func("mpx", "init"); ini != nil {
+		k := 0
+		allInstrs(ini, func(i ssa.Instruction) {
+			st, ok := i.(*ssa.Store)
+			if !ok {
+				return
+			}
+			g, ok := st.Addr.(*ssa.Global)
+			if !ok || !isStatusType(deref(g.Type())) {
+				return
+			}
+			call, ok := st.Val.(*ssa.Call)
+			if !ok {
+				return
+			}
+			o := calleeObj(call)
+			if o == nil || o.Pkg() == nil || o.Pkg().Path() != statusPath {
+				return
+			}
+			k++
+			key := "mpx." + g.Name() + "/teardown-code"
+			ctor := o.Name()
+			if strings.HasPrefix(ctor, "Closed") || strings.HasPrefix(ctor, "Cancel") || strings.HasPrefix(ctor, "End") {
+				r.OK(key, st.Pos(), "built with status.%s: a code every teardown classification accepts", ctor)
+			} else {
+				r.Bad(key, st.Pos(), "the package's teardown status %s is built with status.%s: its code is none of cancelled / closed / end, so the classifications that expect a teardown (closeUser, ReceiveAsync, the handlers' exit) treat it as an unexpected status - Free panics during connection teardown", g.Name(), ctor)
+			}
+		})
+		if k == 0 {
+			r.Unk("mpx/teardown-statuses", 0, "anchor lost: no package-level status value found in mpx")
+		}
+	}
 }
 
 // R11.5: a frame's payload is read only under its code. pmpx.Message is a tagged union: Code() says which of
@@ -353,6 +387,57 @@ func constantStringVal(k *ssa.Const) string {
 		return constant.StringVal(k.Value)
 	}
 	return k.Value.ExactString()
+}
+
+// R09.9: close before waiting. conn.run waits for its two loops with a deferred StopWaitAll. A loop parked in socket
+// I/O (the send loop in a write to a peer that does not read) is released by nothing but conn.close(), which closes
+// the socket. Deferred calls run last-in-first-out: a close() must be deferred AFTER the wait is deferred, so that it
+// runs BEFORE it; with only the outer deferred close (registered first, run last) run() waits forever when one loop
+// ends while the other is blocked - the closed flag is never set, listeners never fire, handler contexts are never
+// cancelled.
+func init() {
+	register(&Rule{ID: "R09.9", Props: []string{"C09", "C20"}, Floor: 1,
+		Doc: "close before waiting: in conn.run a deferred close() is registered after the deferred wait for the receive/send loops (so it runs first and unblocks them)",
+		Run: runR09_9})
+}
+
+func runR09_9(c *Ctx, r *R) {
+	f := r.Need("mpx", "conn.run")
+	if f == nil {
+		return
+	}
+	key := fnKey(f) + "/close-before-wait"
+	var waits, closes []*ssa.Defer
+	for _, call := range callsIn(f, false) {
+		d, ok := call.(*ssa.Defer)
+		if !ok {
+			continue
+		}
+		if o := calleeObj(d); o != nil && strings.HasPrefix(o.Name(), "StopWait") {
+			waits = append(waits, d)
+		}
+		if calleeLabel(d) == "close" {
+			closes = append(closes, d)
+		}
+	}
+	if len(waits) == 0 {
+		// no deferred wait: look for a direct wait followed by nothing - the shape changed, say so
+		r.Unk(key, f.Pos(), "conn.run no longer defers a wait for its loops (anchor lost)")
+		return
+	}
+	for _, w := range waits {
+		ok := false
+		for _, cl := range closes {
+			if dominatesInstr(w, cl) {
+				ok = true
+			}
+		}
+		if ok {
+			r.OK(key, w.Pos(), "a close() deferred after the wait runs before it and releases a loop blocked in socket I/O")
+		} else {
+			r.Bad(key, w.Pos(), "no close() is deferred after the deferred wait for the loops: when one loop ends while the other is blocked in a socket write, run() waits forever, the closed flag is never set, close listeners never fire and handler contexts are never cancelled")
+		}
+	}
 }
 
 func isConstTrueArg(call ssa.CallInstruction) bool {
